@@ -36,6 +36,7 @@ func (e *Engine) VerifyFunc(key string, small bool) *FnCtx {
 	fc.pureMode = ctr.Pure
 	fr := newFrame(fc, fn, "")
 	fr.contract = ctr
+	fc.topFr = fr
 	entry := &State{comp: map[string]string{}, epoch: 0}
 	top0 := fc.declare("top0", "Int")
 	fc.fact("", "(>= %s 1)", top0)
